@@ -407,12 +407,11 @@ func genC05Remote(rng *rand.Rand, idx int, thorough bool) *c05RemoteSpec {
 	for i := 0; i < nf; i++ {
 		sp.Faults = append(sp.Faults, c05Fault{Kind: kinds[rng.Intn(len(kinds))], AtPct: 5 + rng.Intn(85), ForMs: 300 + rng.Intn(1700)})
 	}
-	if idx == 2 || (thorough && idx%5 == 2) {
+	if idx == 2 || idx == 3 || (thorough && idx%5 == 2) {
+		// every (re)start of the transfer is a new chance for the answer line and the first bytes to arrive together:
+		// two short cuts give three starts per trial
 		sp.BurstMs = 700 + rng.Intn(500)
-		sp.Faults = nil
-		if rng.Intn(2) == 0 {
-			sp.Faults = []c05Fault{{Kind: "cutLM", AtPct: 30 + rng.Intn(40), ForMs: 500}}
-		}
+		sp.Faults = []c05Fault{{Kind: "cutLM", AtPct: 15 + rng.Intn(20), ForMs: 400}, {Kind: "cutLM", AtPct: 50 + rng.Intn(25), ForMs: 400}}
 	}
 	if idx == 1 || (thorough && idx%5 == 1) {
 		// the submitting node itself is SIGKILLed while part of the output is mirrored and restarted on its data
